@@ -394,6 +394,42 @@ def rule_power_norm(ck, units, floor=4):
                               f.decl(v)['n'], f.where(mods[0]), f.where(n), show(st), f.where(st)))
 
 
+def rule_iluk_level(ck, units):
+    """fill-level-is-minimum: ILU(k) keeps an entry iff its level of fill - the MINIMUM over all elimination paths that create it of
+    (level of the two factors + 1) - is at most k.  The work row of iluk accumulates contributions: whenever a contribution is added to
+    an entry that already exists (`a.val += val`), the stored level becomes min(stored, level of the contribution) on exactly the same
+    paths (same guards).  Freezing the level at the first contribution, or updating it for a part of the row only, shrinks the pattern
+    the factorisation is exact on."""
+    ck.rule('fill-level-is-minimum', 'iluk work row: every path that accumulates a contribution into an existing entry also lowers its level of fill to min(level, level of the contribution) '
+                                     '(same guards for both statements)', 1)
+    import c01
+    done = False
+    for u in units.values():
+        for f in u.funcs:
+            if done or not (f.cls or '').startswith('amgcl::relaxation::iluk') or f.body is None:
+                continue
+            vals = [n for n in f.nodes.values() if n['k'] in ('bin', 'opcall') and n.get('op') == '+=' and n.get('x') is not None
+                    and unwrap(n['x'])['k'] == 'mem' and unwrap(n['x']).get('n') == 'val']
+            if not vals or not any(f.decl(d).get('n') == 'lev' for d in f.params):
+                continue
+            done = True
+            levp = next(d for d in f.params if f.decl(d).get('n') == 'lev')
+            for w in vals:
+                obj = show(unwrap(w['x']).get('b'))
+                mins = [n for n in f.nodes.values() if n['k'] == 'bin' and n['op'] == '=' and unwrap(n['x'])['k'] == 'mem' and unwrap(n['x']).get('n') == 'lev'
+                        and show(unwrap(n['x']).get('b')) == obj and unwrap(n['y'])['k'] == 'call' and (unwrap(n['y']).get('f') or '') == 'std::min'
+                        and any(x['k'] == 'ref' and x['d'] == levp for x in walk(n['y']))
+                        and any(x['k'] == 'mem' and x.get('n') == 'lev' for x in walk(n['y']))]
+                gw = c01.guards_of(f, w)
+                ok = any(c01.guards_of(f, m) == gw for m in mins)
+                det = ''
+                if not mins:
+                    det = 'the contribution is accumulated by `%s` at %s but the level of fill of the entry is not lowered to min(level, lev): it stays at the level of the first contribution' % (show(w), f.where(w))
+                elif not ok:
+                    det = 'the level of fill is lowered at %s only under %s, the value is accumulated at %s under %s' % (f.where(mins[0]), c01.guards_of(f, mins[0]), f.where(w), gw)
+                ck.ob('fill-level-is-minimum', 'amgcl::relaxation::iluk::sparse_vector::%s' % f.q.split('::')[-1], f.where(w), not det, det)
+
+
 def rule_ilu_order(ck, units):
     ck.rule('ilu-multiplier-order', 'incomplete LU factorisations (ilu0, iluk, ilut): the elimination multiplier is (entry) * (inverted pivot D[c]) - the inverted pivot is the RIGHT factor '
                                     'in every such product of the three sibling constructors (the order matters for block values: (L U)_ic = a_ic needs l_ic = a_ic u_cc^-1)', 3)
@@ -453,6 +489,7 @@ def main(tier):
     rule_gs(ck, units)
     rule_chebyshev_bounds(ck, units)
     rule_ilu_order(ck, units)
+    rule_iluk_level(ck, {k: v for k, v in units.items() if k == 'rt_builtin'})
     # 'the parallel level-scheduled triangular solve equals the serial one': schedule rules shared with C09
     import c09
     c09.rule_B(ck, {k: v for k, v in units.items() if k == 'rt_builtin'})
